@@ -41,7 +41,7 @@ class StatusObserver:
         sub = sum(1 for s in states.values() if s in ("submitted", "done"))
         ex.check(cfg.completed_jobs <= cfg.submitted_jobs <= cfg.num_jobs, "C09: completed <= submitted <= total violated",
                  completed=cfg.completed_jobs, submitted=cfg.submitted_jobs)
-        ex.check(cfg.completed_jobs == done, "C09: completed counter != number of done jobs", counter=cfg.completed_jobs, done=done)
+        ex.check(cfg.completed_jobs == done, "C08/C09: completed counter != number of done jobs (a completion counted twice or not at all)", counter=cfg.completed_jobs, done=done)
         ex.check(cfg.submitted_jobs == sub, "C09: submitted counter != number of submitted or done jobs",
                  counter=cfg.submitted_jobs, recount=sub)
         rows = set(w.result_names(self.out))
@@ -232,7 +232,7 @@ def h_submit(shapes=("chain3",), bss=(1, 2), maxns=(None, 1), tas=(True,), time_
                     break
                 c = cluster_status(out)
                 if c is None:
-                    ex.check(False, "C01/C03/C05/C09: cluster lock left behind in a fault-free history (submission wedged)")
+                    ex.check(False, "C01/C03/C05/C08/C09: cluster lock left behind in a fault-free history (submission wedged)")
                     wedged = True
                     break
                 if c.is_complete() or dry_run:
@@ -251,7 +251,7 @@ def h_submit(shapes=("chain3",), bss=(1, 2), maxns=(None, 1), tas=(True,), time_
                         w.resume_proc(live[ex.choice("u%d_%d" % (step, sub_step), len(live))])
                     c = cluster_status(out)
                     if c is None:
-                        ex.check(False, "C01/C03/C05/C09: cluster lock left behind in a fault-free history (submission wedged)")
+                        ex.check(False, "C01/C03/C05/C08/C09: cluster lock left behind in a fault-free history (submission wedged)")
                         wedged = True
                         break
                     ex.check(len(w.events("sbatch")) > before or c.is_complete(),
@@ -266,7 +266,7 @@ def h_submit(shapes=("chain3",), bss=(1, 2), maxns=(None, 1), tas=(True,), time_
                 r = w.user(["jade", "try-submit-jobs", out])
                 c = cluster_status(out)
                 if c is None:
-                    ex.check(False, "C01/C03/C05/C09: cluster lock left behind in a fault-free history (submission wedged)")
+                    ex.check(False, "C01/C03/C05/C08/C09: cluster lock left behind in a fault-free history (submission wedged)")
                     wedged = True
                     break
                 ex.check(len(w.events("sbatch")) > before or c.is_complete() or squeue_fault,
@@ -555,7 +555,7 @@ def h_submit(shapes=("chain3",), bss=(1, 2), maxns=(None, 1), tas=(True,), time_
                              env=e["env"])
             ex.check(sorted(got) == sorted(nm), "C16: a lifecycle command prevented results from being recorded", got=sorted(got))
         crashes = w.events("crash")
-        ex.check(not crashes or lost or squeue_fault, "C01/C03/C05/C09/C16: a JADE process crashed in a fault-free history",
+        ex.check(not crashes or lost or squeue_fault, "C01/C03/C05/C08/C09/C16: a JADE process crashed in a fault-free history",
                  crashes=[(c_["argv"][:2], c_["error"]) for c_ in crashes][:3])
         ex.check(obs.reads > 0 or local, "C09: status observer never ran")
         ex.note("histories")
